@@ -748,6 +748,9 @@ func (wf *WALFileType) SyncWAL(walRefresh, primaryRefresh time.Duration, walRota
 			case <-tickerPrimary.C:
 				if err := wf.CreateCheckpoint(); err != nil {
 					log.Error("failed to create WAL checkpoint", zap.Error(err))
+					// The WAL still holds the only durable copy of the transactions
+					// that could not be checkpointed: do not rotate (truncate) it.
+					continue
 				}
 				primaryFlushCounter++
 				if primaryFlushCounter%walRotateInterval == 0 {
